@@ -411,6 +411,27 @@ def deregister_only_own(ctx, rule='C03.deregister-only-own'):
         else:
             res.append(bad(rule, '%s | removal index not from a search for the own id' % dr.qual,
                            'the registry removal at %s does not use an index obtained by searching for self.meta.tx_id (search=%s, own id=%s)' % (dr.loc(bb), searched, own), where=dr.loc(bb)))
+    # (c) nobody else takes entries out: a second way to deregister (an explicit close / rollback / refresh) removes an entry that Drop removes again, or removes another
+    # reader's entry of the same snapshot
+    raw_dr = getattr(dr, 'raw', None) or ctx.A.get('<TxInner as Drop>::drop')
+    nfn = 0
+    for g in sorted(ctx.facts.fns, key=lambda f: f.path):
+        if g is raw_dr or c09.part_of(ctx, g, dr):
+            continue
+        try:
+            li2, hs2, toks2 = registry_holders(ctx, g)
+        except Exception:
+            continue
+        if not hs2:
+            continue
+        nfn += 1
+        for bb, t, n, m in registry_calls(ctx, g, hs2):
+            if m and n in ('remove', 'swap_remove', 'retain', 'clear', 'drain', 'truncate', 'pop', 'take', 'split_off'):
+                res.append(bad(rule, '%s | removes registry entries outside Drop' % g.qual,
+                               '%s takes entries out of the open-reader registry (%s at %s): only dropping a read-only transaction may do that, once; a second path double-removes '
+                               '(unpinning another reader of the same snapshot) or unpins a snapshot that handles still use' % (g.qual, n, g.loc(bb)), where=g.loc(bb)))
+    if not any(not r.ok and 'outside Drop' in r.key for r in res):
+        res.append(ok(rule, 'no function other than the Drop of a transaction removes registry entries (%d other functions take the registry lock)' % nfn, sites=nfn))
     return res
 
 
@@ -541,6 +562,8 @@ def run(ctx, tier):
     results += deregister_only_own(ctx)
     results += private_map(ctx)
     results += snapshot_fixed(ctx)
+    import c13
+    results += c13.file_lock_clauses(ctx, 'C03')
     import c10
     results += c10.release_per_entry(ctx, rule='C03.release-per-entry')
     results += c10.blocking_registry(ctx, rule='C03.blocking-registry')
